@@ -15,10 +15,10 @@ BUILD_TARGETS = ["AldorVerif.Props.C20PriQ"]
 SOURCES = ["priq.c", "priq.h", "util.c"]
 MODELLED = ("priq.c: heapParent/Left/Right heapExchange heapSiftOutward heapSiftInward heapInsert heapExtractMin heapPeekMin "
             "heapCheck heapMap0 priqNew priqInsert priqPeekMin priqExtractMin priqCheck priqMap priqCount "
-            "(not: priqFree priqFreeDeeply priqPrint; keys are integer-valued doubles; extract/peek on the empty queue excluded)")
+            "(not: priqFree priqFreeDeeply priqPrint; keys are integer-valued doubles; extract/peek on the empty queue call bug() and are answered `empty` by the driver guard)")
 THEOREMS = [("AldorVerif.Props.C20PriQ", "AldorVerif.PriQ." + t) for t in (
     "priq_extract_sorted", "priq_insert_spec", "priq_extract_spec", "priq_drain_sorted", "heap_root_min",
-    "two_extracts_ordered", "priq_check_sound", "priq_check_rejects_equal_keys")]
+    "two_extracts_ordered", "priq_check_iff", "priq_check_reachable")]
 
 # ------------------------------------------------------------------ generators
 def gen_exhaustive(maxlen):
@@ -128,7 +128,7 @@ def oracle(line, answer):
             elif op == "z":
                 if int(r) < count: return bad("allocated size %s < count %d" % (r, count))
             elif op == "k":
-                if r not in ("0", "1"): return bad("priqCheck answered %r" % r)
+                if r != "1": return bad("priqCheck does not confirm the heap order (answered %r)" % r)
             elif op in ("d", "m"):
                 ps = parse_parts(r)
                 if Counter(ps) != +bag: return bad("%s holds a different multiset than inserted minus extracted" % ("array" if op == "d" else "priqMap"))
